@@ -55,12 +55,19 @@ namespace riddle
                     switch (ch = next_char())
                     {
                     case '*':
-                        if ((ch = next_char()) == '/')
+                        while ((ch = next_char()) == '*')
+                            ; // a run of '*' can still be followed by the closing '/'..
+                        if (ch == '/')
                         {
                             ch = next_char();
                             return next();
                         }
+                        if (ch == -1)
+                            error("unterminated comment..");
                         break;
+                    case -1:
+                        error("unterminated comment..");
+                        return nullptr;
                     }
             }
             return mk_token(SLASH_ID);
